@@ -547,6 +547,15 @@ def extract():
         g["seqSource"] = "processCounter"
     else:
         raise ExtractError("Client::create_new_session: the session's seq is not taken from one process-wide fetch_add(1) counter")
+    # ---- where the client sends the replies of a UDP association ---------------------------------
+    ucl = strip_comments(read("src/client/udp_client.rs"))
+    uflat = re.sub(r"\s+", "", ucl)
+    if "letmutguard=last_peer.lock().await;*guard=Some(addr);" in uflat and uflat.count("*guard=") == 1 \
+            and "lettarget={*last_peer.lock().await};" in uflat and "ifletSome(addr)=target{letsent=udp.send_to(&payload,addr).await?;" in uflat \
+            and len(re.findall(r"last_peer", ucl)) == 7:
+        g["replyRule"] = "lastSender"
+    else:
+        raise ExtractError("client UDP association: replies are not sent to the sender of the most recent local datagram (`last_peer`) in the modelled shape")
     # ---- the authentication gate of a server connection -------------------------------------
     g["authGate"] = auth_gate()
     return g
@@ -724,6 +733,13 @@ def render(g):
     a("  deriving DecidableEq, Repr")
     a("")
     a(f"def seqSource : SeqSource := .{g['seqSource']}")
+    a("")
+    a("/-- where the client's stream -> socket loop sends a reply of the association -/")
+    a("inductive ReplyRule where")
+    a("  | lastSender   -- to the source address of the most recent datagram received on the local socket (dropped before the first)")
+    a("  deriving DecidableEq, Repr")
+    a("")
+    a(f"def replyRule : ReplyRule := .{g['replyRule']}")
     a("")
     a("/-- how `handle_connection` awaits `authenticate_client` before it builds the session -/")
     a("inductive AuthGate where")
